@@ -102,7 +102,28 @@ def main(tier):
         cid = "x%d" % k
         cases.append(rel.case(cid, t))
         meta[cid] = (nm, "reject", t, pos, "reject")
+    # type / notation parameters: a value that needs no quotes means the same with or without them
+    pairs = []
+    for kw, follow in (("200", "  404 any\n"), ("Request", "  200 any\n"), ("200", "    Headers\n    {\n      \"h\": 1\n    }\n")):
+        for par in ("@cat", "[@cat]", "any", "empty"):
+            doc = 'JSIGHT 0.3\nTYPE @cat\n{\n  "a": 1\n}\nGET /x\n  %s %s\n%s' + ("  200 any\n" if kw == "Request" else "")
+            pairs.append((kw + " " + par, doc % (kw, par, follow), doc % (kw, '"%s"' % par, follow)))
+    for par in ("@cat", "[@cat]", "any", "regex"):
+        body = "\n/a/" if par == "regex" else ""
+        d = 'JSIGHT 0.3\nTYPE @cat\n{\n  "a": 1\n}\nPOST /y\n  Request\n    Body %s' + body + '\n  201\n    Body %s' + body + '\n  200 any\n'
+        pairs.append(("Body " + par, d % (par, par), d % ('"%s"' % par, '"%s"' % par)))
+    for k, (nm, bare, quoted) in enumerate(pairs):
+        cases.append(rel.case("tb%d" % k, bare))
+        cases.append(rel.case("tq%d" % k, quoted))
     obs = harness("run", cases)
+    for k, (nm, bare, quoted) in enumerate(pairs):
+        a, b = obs["tb%d" % k], obs["tq%d" % k]
+        chk.evaluations += 1
+        chk.nontrivial.add("typeparam:" + nm)
+        if rel.result_key(a) != rel.result_key(b):
+            sig = {"level": "end-to-end", "host": "type-parameter", "mode": "quoted-vs-bare", "cls": nm}
+            chk.violation("parameter %r means something else when quoted: bare %s, quoted %s | quoted document:\n%s" % (
+                nm, rel.describe(a), rel.describe(b), quoted), {"kind": "param_pair", "bare": bare, "file": quoted, "signature": sig}, sig)
     for cid, (v, host, text, get, mode) in meta.items():
         o = obs[cid]
         chk.evaluations += 1
